@@ -201,20 +201,22 @@ Fixpoint check_loop (O : oracles) (mv : option nat) (keys : list (list N)) (s : 
            end
   end.
 
-Definition from_raw (O : oracles) (validate : bool) (data : list (list N * rawv)) : frres :=
+(* [ord] = the order in which the frozenset happens to be iterated (any permutation) *)
+Definition from_raw_ord (ord : list (list N) -> list (list N)) (O : oracles) (validate : bool) (data : list (list N * rawv)) : frres :=
   let s0 := init data in
   if negb validate then FOk s0 else
-  match read O s0 k_mv with
+  match read O s0 k_mv with                                                           (* ins.metadata_version *)
   | (_, Crash c) => FCrash c
   | (s1, r) =>
-      let mv := match r with Ok (EStr v) => index_of v gen_valid_versions | _ => None end in
+      let mv := match r with Ok (EStr v) => index_of v gen_valid_versions | _ => None end in      (* metadata_age *)
       let errs0 := match r with Invalid f => [f] | _ => [] end in
-      match check_loop O mv (fields_to_check (map fst (raw s1))) s1 errs0 with
+      match check_loop O mv (ord (fields_to_check (map fst (raw s1)))) s1 errs0 with
       | inr c => FCrash c
       | inl (s2, []) => FOk s2
-      | inl (_, errs) => FGroup errs
+      | inl (_, errs) => FGroup errs                                                   (* ExceptionGroup("invalid metadata", exceptions) *)
       end
   end.
+Definition from_raw := from_raw_ord (fun l => l).
 
 (* from_email after parse_email returned (raw, unparsed): unparsed keys alone make the group; otherwise from_raw *)
 Definition from_email (O : oracles) (validate : bool) (data : list (list N * rawv)) (unparsed : list (list N)) : frres :=
